@@ -34,7 +34,8 @@ def interchange(self, i, j, left=False):
             >> Id(left @ box1.cod @ mid) @ box0 @ Id(right) >> bottom
     """
     from discopy.monoidal import Layer, Diagram
-    if not 0 <= i < len(self) or not 0 <= j < len(self):
+    n_boxes = len(self.boxes)  # len(self) is the number of terms of a Sum
+    if not 0 <= i < n_boxes or not 0 <= j < n_boxes:
         raise IndexError
     if i == j:
         return self
